@@ -86,6 +86,7 @@ fn hostile_scripts(rng: &mut Rng, nh: usize) -> Vec<Script> {
                 fail_before_pulls: rng.bool(),
                 meta_hint: rng.usize(4) as u8,
                 finish_each: rng.chance(1, 5),
+                fail_via_response: rng.chance(1, 4),
             }
         })
         .collect()
